@@ -1536,10 +1536,10 @@ def run_uartcore(case):
     cons = bench.Consumer(core.source, case["txs"], until=main if not case["flush"] else None)
     sigs = [core._rxtx.re, core._rxtx.r, core._txfull.status, core._rxtx.we, core._rxtx.w, core._rxempty.status, core.ev.rx.clear,
             core._txempty.status, core._rxfull.status, core.ev.tx.trigger, core.ev.rx.trigger, core.ev.tx.pending, core.ev.rx.pending,
-            core.ev.irq, core.ev.enable.storage, core.ev.tx.clear]
+            core.ev.irq, core.ev.enable.storage, core.ev.tx.clear, core.ev.pending.re, core.ev.pending.r]
     probe = bench.Probe(sigs)
     cyc = bench.run(top, [periph.BusProgram(top, writes, reads), prod, cons, probe], n)
-    RE, R, TXFULL, WE, W, RXEMPTY, RXCLR, TXEMPTY, RXFULL, TTRIG, RTRIG, TPEND, RPEND, IRQ, IEN, TXCLR = range(16)
+    RE, R, TXFULL, WE, W, RXEMPTY, RXCLR, TXEMPTY, RXFULL, TTRIG, RTRIG, TPEND, RPEND, IRQ, IEN, TXCLR, PRE, PR = range(18)
     tr = probe.trace
     what = "UART(tx_fifo_depth=%d, rx_fifo_depth=%d, rx_fifo_rx_we=%r%s)" % (case["dtx"], case["drx"], case["rx_we"],
                                                                              ", auto tx flush" if case["flush"] else "")
@@ -1555,8 +1555,13 @@ def run_uartcore(case):
         if (r[TPEND], r[RPEND]) != (tp, rp) or r[IRQ] != int(bool((tp | (rp << 1)) & r[IEN])):
             return bad("uart-pending", "%s: cycle %d: pending tx/rx %d/%d irq %d, expected %d/%d (enable %d)" % (
                 what, c, r[TPEND], r[RPEND], r[IRQ], tp, rp, r[IEN]), key="c19:uart:pending", cls=cls, cycles=cyc)
-        ntp = 0 if r[TXCLR] else tp
-        nrp = 0 if r[RXCLR] else rp
+        # an event is cleared by software writing a one to its pending bit, and by nothing else
+        sw_tx, sw_rx = int(bool(r[PRE] and r[PR] & 1)), int(bool(r[PRE] and r[PR] & 2))
+        if (r[TXCLR], r[RXCLR]) != (sw_tx, sw_rx):
+            return bad("uart-event-clear", "%s: cycle %d: clear lines of the tx/rx events are %d/%d, software's write-one-to-clear says %d/%d "
+                       "(rxtx read strobe %d)" % (what, c, r[TXCLR], r[RXCLR], sw_tx, sw_rx, r[WE]), key="c19:uart:event-clear", cls=cls, cycles=cyc)
+        ntp = 0 if sw_tx else tp
+        nrp = 0 if sw_rx else rp
         if r[TTRIG] and not ttd:
             ntp = 1
         if r[RTRIG] and not rtd:
